@@ -49,6 +49,8 @@ def sandbox():
         "site/big.bin": "TOKEN-big-" + "x" * 5000, "site/sub/huge.txt": "TOKEN-huge-" + "y" * 1200000,
         # directories that are themselves hidden or backups, and visible names with a tilde elsewhere
         "site/old~/f.txt": "TOKEN-backup-dir", "site/sub/draft~/x.txt": "TOKEN-backup-subdir", "site/.git/config": "TOKEN-dot-dir",
+        # a second document root with the same names: one file of other content, one that is a directory there, one missing
+        "site2/index.txt": "TOKEN-second-root-index", "site2/sub/a.txt/inner.txt": "TOKEN-second-root-inner",
         "site/~tilde.txt": "TOKEN-tilde-first", "site/sub/mid~dle.txt": "TOKEN-tilde-middle", "site/..data/v": "TOKEN-dotdot-dir",
     }
     for rel, content in files.items():
@@ -126,6 +128,14 @@ def generate(rng, tier):
         path = rng.choice(["", "/", "/", "//"]) + rng.choice(["/", "//"]).join(rng.choice(SEGS) for _ in range(k))
         cases.append(mk(path, rng.choice(METHODS), rng.random() < 0.5, rng.choice(["abs", "abs", "slash", "rel", "link"]),
                         rng.choice(["attr", "attr", "env"])))
+    # the document root changed between two requests for the same path (by the attribute or per request): the second answer
+    # comes from the second root, whatever the first request found
+    for path in ("/index.txt", "/sub/a.txt", "/sub/deep/f.txt", "index.txt"):
+        for method in ("GET", "HEAD"):
+            for via in ("attr", "env"):
+                cases.append(mk(path, method, True, "abs", via))
+                cases.append(mk(path, method, True, "two", via))
+                cases.append(mk(path, method, False, "abs", "attr"))
     return cases
 
 
@@ -152,11 +162,18 @@ def do_request(case):
     path, method, index, rootkind, via = unhx(t[2]).decode(), t[3], t[4] == "1", t[5], t[6]
     sb = sandbox()
     root = {"abs": sb["root"], "slash": sb["root"] + "/", "rel": os.path.relpath(sb["root"]),
-            "link": os.path.join(sb["base"], "lnk", "..")}[rootkind]
+            "link": os.path.join(sb["base"], "lnk", ".."), "two": os.path.join(sb["base"], "site2")}[rootkind]
     a = app()
     env = {"REQUEST_METHOD": method, "PATH_INFO": path.encode("utf-8", "surrogatepass").decode("latin-1"),
            "QUERY_STRING": "", "SERVER_NAME": "srv", "SERVER_PORT": "80", "SERVER_PROTOCOL": "HTTP/1.1",
            "wsgi.url_scheme": "http", "wsgi.input": io.BytesIO(b""), "wsgi.errors": io.StringIO()}
+    if rootkind == "two":
+        # (self-contained: the same path was asked for under the first root just before)
+        a.document_root, a.document_index = sb["root"], index
+        try:
+            b"".join(a(dict(env, **{"wsgi.input": io.BytesIO(b""), "wsgi.errors": io.StringIO()}), lambda s_, h_: None))
+        except BaseException:
+            pass
     if via == "env":
         a.document_root = "/nonexistent-root"
         a.document_index = not index
@@ -222,7 +239,7 @@ def oracle(case):
     calls, body, opened, root = do_request(case)
     if calls is None:
         return []          # escapes are C01's business
-    rootreal = os.path.realpath(sb["root"])
+    rootreal = os.path.realpath(root)       # the root this request was served under (every spelling resolves to a tree)
     bad = None
     for o in opened:
         ro = os.path.realpath(o)
